@@ -434,6 +434,48 @@ class Css:
         T.append((P + r'expect_colon$', expect_kind('Colon', lambda l, i: UNIT)))
         T.append((P + r'expect_string_cloned$', expect_kind('QuotedString', lambda l, i: payload_term(l, i, 'QuotedString', 0))))
 
+        @reg(P + r'expect_url_or_string$|' + P + r'expect_url$')
+        def expect_url_or_string(exe, path, callee, args, dst_ty):
+            # cssparser: <string-token> | <url-token> | url( <string-token> ) -> the unescaped value; anything else is an error.
+            # The function form is modelled for a block holding exactly one string token (other contents: Err, which is what
+            # cssparser answers unless the rest is whitespace - the whitespace variants are outside the model and demand nothing).
+            level = env.level_of(exe, path, args[0])
+            with_string = not callee.endswith('expect_url')
+            outs = []
+            for p in skip_ws(exe, path, level):
+                pos, pending = env.cpos(p, level)
+                yes, no = env.fork_has_token(exe, p, level, pos)
+                if no is not None:
+                    outs.append(('ret', no, err(Opaque('BasicParseError', {'structural': True, 'kind': 'EndOfInput'}))))
+                if yes is None:
+                    continue
+                env.set_cpos(yes, level, pos + 1, pos)
+                yes.env['cursor'] = yes.env.get('cursor', 0) + 1
+                yes.event('consume', level, pos)
+                k = tok_kind(level, pos)
+                child = '%s.%d' % (level, pos)
+                fn_ok = z3.And(k == TK['Function'], payload_term(level, pos, 'Function', 0) == z3.StringVal('url'),
+                               level_len(child) == 1, tok_kind(child, 0) == TK['QuotedString'])
+                cases = [(k == TK['UnquotedUrl'], payload_term(level, pos, 'UnquotedUrl', 0), False), (fn_ok, payload_term(child, 0, 'QuotedString', 0), True)]
+                if with_string:
+                    cases.insert(0, (k == TK['QuotedString'], payload_term(level, pos, 'QuotedString', 0), False))
+                for c, val, is_fn in cases:
+                    if exe.feasible(yes, [c]):
+                        q = yes.clone()
+                        q.pc.append(c)
+                        if is_fn:
+                            q.pc.append(z3.And(level_len(child) >= 0, level_len(child) <= env.lmax))
+                            q.pc.extend(token_constraints(child, 0))
+                            env.set_cpos(q, level, pos + 1, None)
+                            q.event('url-function', level, pos)
+                        outs.append(('ret', q, ok(val)))
+                none = z3.Not(z3.Or([c for c, _, _ in cases]))
+                if exe.feasible(yes, [none]):
+                    q = yes.clone()
+                    q.pc.append(none)
+                    outs.append(('ret', q, err(Opaque('BasicParseError', {'structural': True, 'kind': 'UnexpectedToken'}))))
+            return outs
+
         @reg(P + r'current_source_location$')
         def current_source_location(exe, path, callee, args, dst_ty):
             level = env.level_of(exe, path, args[0])
